@@ -25,6 +25,9 @@ def scripts(thorough):
         'locked-then-cheat': ['ensure', 'wait_all', 'sleep', 'release_mine', 'ensure', 'start', 'wait_all', 'drain'],
         'job-then-locked': ['ensure', 'start', 'wait_all', 'sleep', 'release_mine', 'ensure', 'start', 'wait_all', 'drain'],
         'job-then-unlocked-target': ['ensure', 'start', 'wait_all', 'ensure', 'start', 'wait_all', 'drain'],
+        # second phase of builder::run when the lock of a previously locked target is free at the first try_lock: the job is
+        # started right after wait_all (whether an ensure_token_or_cheat comes first is read from builder.rs)
+        'job-then-free-target': ['ensure', 'start', 'wait_all', 'ensure-if-builder-does', 'start', 'wait_all', 'drain'],
         # the root future ends with an error while children are still running (abandoned jobs)
         'abandon-running-jobs': ['ensure', 'start', 'ensure', 'start', 'fail'],
         # a token is being waited for while two children run (both may exit in one wake-up)
@@ -368,9 +371,98 @@ def main(pid):
 
         chk.explore('cheat callback of builder::run, three calls, every lock-probe outcome', run, judge)
 
+    # ------------------------------------------------------------------------------- JobServer::setup
+    def setup_facts():
+        """which pipes a redo process uses: -j0 under a parent jobserver joins it (token pipe AND cheat pipe); any explicit -jN
+        (N >= 1) starts an own jobserver with N-1 tokens in a fresh token pipe, advertises it in MAKEFLAGS, and uses a fresh
+        cheat pipe (cheat bytes compensate the accounting of ONE token pipe); without a parent, -j0 is an own jobserver of 1"""
+        from specs.depsobl import EnvWorld
+        st = {}
+        INH = ' -j --jobserver-auth=100,101 --jobserver-fds=100,101'
+
+        class W(EnvWorld):
+            def __init__(self, e, env):
+                EnvWorld.__init__(self, e, env)
+                self.P = {}
+                self.next = 200
+
+            def make_pipe(self, e, startfd):
+                r, wfd = self.next, self.next + 1
+                self.next += 2
+                self.P[wfd] = 0
+                return ok(Struct('()', [r, wfd]))
+
+            def write_tokens(self, e, fd, n):
+                fd = e.concrete(fd, 'fd')
+                self.P[fd] = self.P.get(fd, 0) + e.concrete(n, 'n')
+                return ok(UNIT)
+
+        def run():
+            mj = eng.choose(4, 'max_jobs')
+            has_parent = eng.choose(2, 'parent jobserver in MAKEFLAGS')
+            has_cheat = eng.choose(2, 'REDO_CHEATFDS inherited') if has_parent else 0
+            env = {}
+            if has_parent:
+                env['MAKEFLAGS'] = [ord(c) for c in INH]
+            if has_cheat:
+                env['REDO_CHEATFDS'] = [ord(c) for c in '102,103']
+            w = W(eng, env)
+            eng.world = w
+            st.update(w=w, mj=mj, has_parent=has_parent, has_cheat=has_cheat)
+            eng.stubs['make_pipe'] = lambda e, ci, a, sp: e.world.make_pipe(e, a[0])
+            eng.stubs['write_tokens'] = lambda e, ci, a, sp: e.world.write_tokens(e, a[0], a[1])
+            eng.stubs['fd_exists'] = lambda e, ci, a, sp: True
+            eng.stubs['helpers::fd_exists'] = eng.stubs['fd_exists']
+            return eng.call('JobServer::setup', [mj], None, None)
+
+        def judge(outcome, val, path):
+            if pid != 'C08':
+                return None
+            w, mj, has_parent, has_cheat = st['w'], st['mj'], st['has_parent'], st['has_cheat']
+            wit = {'max_jobs': mj, 'parent': bool(has_parent), 'cheatfds': bool(has_cheat)}
+            if outcome != 'ok' or val.var != 'Ok':
+                return {'role': 'setup:' + outcome, 'kind': 'setup', 'witness': wit, 'what': 'JobServer::setup(%d): %s %r' % (mj, outcome, val)}
+            srv = val.f[0]
+            params = deref_all(srv.f[eng.src.structs['JobServer'].index('params')])
+            pf = {n: params.f[i] for i, n in enumerate(eng.src.structs['ServerParams'])}
+            tok = tuple(pf['token_fds'].f)
+            cheat = tuple(pf['cheat_fds'].f)
+            top = pf['top_level']
+            join = bool(has_parent) and mj == 0
+            chk.goal('setup: joins the parent jobserver', join)
+            chk.goal('setup: -j1 under a parent jobserver', bool(has_parent) and mj == 1)
+            want_top = 0 if join else (mj if mj else 1)
+            got = {'token_pipe': 'parent' if tok == (100, 101) else 'own', 'cheat_pipe': 'parent' if cheat == (102, 103) else 'own',
+                   'top_level': top, 'tokens_in_own_pipe': w.P.get(tok[1], 0) if tok != (100, 101) else None,
+                   'written_to_parent_pipe': w.P.get(101, 0)}
+            want = {'token_pipe': 'parent' if join else 'own', 'cheat_pipe': 'parent' if (join and has_cheat) else 'own',
+                    'top_level': want_top, 'tokens_in_own_pipe': None if join else want_top - 1, 'written_to_parent_pipe': 0}
+            wit.update(got=got, want=want)
+            if got != want:
+                diff = [k for k in want if got[k] != want[k]]
+                return {'role': 'setup:' + diff[0], 'kind': 'setup', 'witness': wit,
+                        'what': 'JobServer::setup(-j%d, parent jobserver %s, REDO_CHEATFDS %s) uses %r, expected %r' % (
+                            mj, 'present' if has_parent else 'absent', 'present' if has_cheat else 'absent',
+                            {k: got[k] for k in diff}, {k: want[k] for k in diff})}
+            if not join:
+                mf = bytes(w.envmap.get('MAKEFLAGS', [])).decode()
+                if '--jobserver-auth=%d,%d' % tok not in mf:
+                    return {'role': 'setup:makeflags', 'kind': 'setup', 'witness': wit,
+                            'what': 'an own jobserver is not advertised in MAKEFLAGS (%r)' % mf}
+            return None
+
+        try:
+            chk.explore('JobServer::setup: which token / cheat pipe, how many tokens', run, judge)
+        finally:
+            for k in ('fd_exists', 'helpers::fd_exists'):
+                eng.stubs.pop(k, None)
+            install_stubs(eng)
+
     rep = Replayer(log)
     try:
         transitions()
+        if not os.environ.get('VERIF_ONLY') or 'setup' in os.environ.get('VERIF_ONLY'):
+            setup_facts()
         if not os.environ.get('VERIF_ONLY') or 'cheat' in os.environ.get('VERIF_ONLY'):
             cheat_closure()
         if not os.environ.get('VERIF_ONLY') or 'backoff' in os.environ.get('VERIF_ONLY'):
@@ -571,6 +663,18 @@ def make_replay(rep):
         if c.get('kind') == 'transition':
             return False, 'transition counterexamples are replayed through Kani only'
         w = c['witness']
+        if c.get('kind') == 'setup':
+            if 'want' not in w:
+                return False, 'no prediction to compare with'
+            line = '%d %d %d' % (w['max_jobs'], 1 if w['parent'] else 0, 1 if w['cheatfds'] else 0)
+            payload, raw, rc = rep.run('jobserver', 'setup_batch', [line], timeout=600)
+            if len(payload) != 1:
+                return False, 'native run failed (rc=%s): %s' % (rc, raw[-400:])
+            got = dict(x.split('=', 1) for x in payload[0].split(' ')[2:] if '=' in x)
+            want = w['want']
+            wn = {'TOK': want['token_pipe'], 'CHEAT': want['cheat_pipe'], 'TOP': str(want['top_level']),
+                  'OWNTOKENS': str(want['tokens_in_own_pipe']), 'PARENTWRITTEN': str(want['written_to_parent_pipe'])}
+            return got != wn, 'compiled JobServer::setup on `%s`: %s; documented: %r' % (line, payload[0], wn)
         if c.get('kind') == 'cheat':
             return cheat_replay(c)
         if c.get('kind') == 'backoff':
